@@ -21,7 +21,9 @@ echo "demo_without_rc=$RC0 demo_with_rc=$RC1 suite_with_rc=$RC2" | tee $OUT/conf
 if [ $RC0 -eq 0 ] && [ $RC1 -ne 0 ] && [ $RC2 -eq 0 ]; then echo CONFIRMED | tee -a $OUT/confirm.txt; else echo NOT-CONFIRMED | tee -a $OUT/confirm.txt; fi
 # run my checks against it
 cd /verif
+export MZSA_EVIDENCE_DIR=$(mktemp -d /tmp/mzsa-evid.XXXXXX)
 git -C /repo apply $OUT/patch.diff || { echo "patch does not apply to /repo"; exit 2; }
 for Q in ${CHECKS:-$P}; do ./check $Q > $OUT/check_$Q.log 2>&1; echo "check $Q rc=$? : $(grep -c '^VIOLATION' $OUT/check_$Q.log) violations; rules: $(grep '^  rule' $OUT/check_$Q.log | awk '{print $2}' | sort -u | tr '\n' ' ')"; done
 git -C /repo checkout -- .
 git -C /repo status --short | head -3
+rm -rf "$MZSA_EVIDENCE_DIR"
